@@ -239,7 +239,9 @@ PROPS["C16"] = dict(
          "file, three links to files and one to a directory): FindSequencesOnDisk, FindSequenceOnDisk, ListFiles, pad widths up to 21 "
          "and zfill up to 40 (NewFrameSet, NewFileSequencePad of both "
          "styles, SetPaddingStyle, Format, Copy, Split, IsFrameRange, PadFrameRange, FramesToFrameRange, FindSequencesInList, "
-         "PaddingChars); a race report, a crash, or results differing from a sequential re-computation fail the op; "
+         "PaddingChars); then, eight times, Copy() and Split()[0] values of a master sequence nobody has queried are handed to the "
+         "goroutines, which ask End/Len/Start/Index/HasFrame at once (copies are separate values); "
+         "a race report, a crash, or results differing from a sequential re-computation fail the op; "
          "non-trivial = any distinct op",
     assumptions=["Go memory model and race detector; schedules of the real code are sampled"],
 )
@@ -250,7 +252,11 @@ PROPS["C17"] = dict(
          "hidden directories and files, empty directories, file links, one directory link per target placed in the tree root; "
          "flag 'C': aliased and cyclic links anywhere, termination only) x random subsets of -r -a -s --hash1 -f x 1-3 root "
          "arguments (directories in 4 spellings, '.', the absolute root, a missing path, a pattern); every tenth op is a flat tree of "
-         "100-180 directories all passed as arguments (more queued work than the 50 workers); every op runs the binary "
+         "100-180 directories all passed as arguments (more queued work than the 50 workers); every tenth a cyclic link next to 1-4 "
+         "links to flat directories (exact listing: every link of a directory is recorded before anything below it is visited), "
+         "with or without a pattern argument whose file name has 250-400 bytes; for pattern-only invocations the specification "
+         "side states the cover too (the files <basename><frame><ext> of the pattern's directory when they share one digit width); "
+         "every op runs the binary "
          "with GOMAXPROCS 1, 2 and 16 under a 20 s deadline; observed: sorted lines, their expansion (exact cover vs the selected "
          "files, once per visiting path), error-line count, run-to-run stability, timeout; non-trivial = any distinct op",
     assumptions=["fastwalk: callback once per entry, returns after all callbacks", "scheduler fairness", "schedules of the real binary are sampled",
@@ -262,7 +268,9 @@ PROPS["C18"] = dict(
     rule="op seqinfo: the real binary (built from /repo/cmd/seqinfo on every run) on 1-64 valid-UTF-8 patterns (duplicates, "
          "malformed ones) through arguments or stdin x random subsets of --hash1 -d -b -r -p -e --format (8 templates of literal "
          "text and niladic actions) --inverted -i -f, always with --json parsed back, three runs with GOMAXPROCS 1 / 16 / 4, plus "
-         "a plain-output run; observed: one entry per distinct pattern with all 12 fields, plain/json agreement, run-to-run "
+         "a plain-output run, plus one run of a race-detector build (two or more patterns; every case in the thorough tier, one in "
+         "four in the quick tier: a race report fails the op); observed: one entry per distinct pattern with all 12 fields, "
+         "plain/json agreement, run-to-run "
          "stability; a crash fails the op; non-trivial = any distinct op",
     assumptions=["go-flags argument parsing trusted", "text/template trusted for the generated templates"],
 )
@@ -278,7 +286,10 @@ PROPS["C20"] = dict(
          "already released and unknown ids; every result and Len compared with the sequential model; ids checked non-zero and "
          "distinct) and hstress (2-8 goroutines x 1-8 handles x up to 3000 random owner-only operations, built with -race: no "
          "failed lookup while owned, live count back to the start at quiescence, no race report; each op starts with an add storm: "
-         "all goroutines create handles at once, the ids must be non-zero, pairwise distinct, resolvable and counted); the driver is built on every "
+         "all goroutines create handles at once, the ids must be non-zero, pairwise distinct, resolvable and counted) and hseed (a "
+         "table's generator is put in a chosen state — the pre-images under up to 5 inverse xorshift steps of 1, 2, 3, ..., 2^63, "
+         "2^64-1, and random states — and 1-12 objects are created: the ids equal the model's next states (Xorshift.nth), none is "
+         "zero, all differ, all resolve and are counted); the driver is built on every "
          "run from unchanged copies of /repo/exp/cpp/export/storage.go and uuid.go; non-trivial = any distinct op",
     assumptions=["interleavings of the real code are sampled (deterministic schedules of the instrumented copy, race detector + stress of the unchanged copy); the theorems cover all interleavings of the model",
                  "full period 2^64-1 of xorshift64 is cited, not proved"],
